@@ -98,6 +98,8 @@ def _model_job(job) -> List[Dict[str, Any]]:
         for ev in oc.raises:
             m, fn, line = where(ev)
             ctext = norm_text(ev.node, 100) if isinstance(ev.node, ast.Raise) else f"implicit {ev.data['exc']} at: {norm_text(ev.node, 80)}"
+            if ev.data.get("via"):
+                ctext += "  [reached via " + ev.data["via"][-1] + "]"  # one rejection point per call site of a shared validator
             if ev.data["effects"]:
                 eff = sorted(f"{o}.{f}" for o, f in ev.data["effects"])
                 out.append(dict(rule="R13.1", verdict="VIOLATED", module=m, function=fn, construct=ctext, line=line,
@@ -209,6 +211,6 @@ def run(prog: Program, rep: Report, tier: str = "quick") -> None:
     rep.floor("R13.3", 90 * n)
     rep.floor("R13.1", 9 * n)
     rep.floor("R13.2", 9 * n)
-    rep.floor("R13.2s", 9 * n)
+    rep.floor("R13.2s", 3 * n)  # syntactic raise sites: a shared validator legitimately lowers the count
     rep.floor("R13.4", n)
     rep.not_decided = []
